@@ -171,3 +171,688 @@ Proof.
     cbn [bracket_of length]. rewrite bracket_nil. split; [apply RefT_embed, H | lia].
   - apply Nat.leb_gt in El. rewrite fold_priority_short by exact El. split; [exact H | lia].
 Qed.
+
+(** the tree of a left-to-right walk over links whose operands are units *)
+Fixpoint chainT (a : ttree) (rest : links) (t : ttree) : Prop :=
+  match rest with
+  | [] => t = a
+  | (o, v) :: rest' => exists b, RefT (Leaf v) b /\ chainT (TNode a o b) rest' t
+  end.
+
+Lemma RefT_short v rest t :
+  (length rest <= 1)%nat -> RefT (bracket v rest) t -> exists a, RefT (Leaf v) a /\ chainT a rest t.
+Proof.
+  intros Hl H. destruct rest as [|[o v2] [|x rest]]; cbn [length] in Hl; [| |lia].
+  - rewrite bracket_nil in H. exists t. split; [exact H | reflexivity].
+  - rewrite bracket_one in H. inversion H as [| |l o' r a b Ha Hb]; subst.
+    exists a. split; [exact Ha|]. exists b. split; [exact Hb | reflexivity].
+Qed.
+
+(** ** The expression level *)
+Section Walk.
+  Variable Cf : list instr.
+  Variable G : globals.
+
+  (** what an expression-like computation owes: on an accepted run it yields an operand that
+      names an old register, pushes no [ILet], and for every reference tree of [T] the operand
+      denotes exactly that tree in the environment of the monitor *)
+  Definition BP (s : bst) (T : tree) (r : option eres) (s' : bst) : Prop :=
+    exists er c, r = Some er /\ Ctx s' = Ctx s ++ c /\ nolet c /\ RegLe (hr s') er /\
+      forall t, RefT T t -> operand_tree er (TEnv s') = Some t.
+
+  Lemma B_leaf s mk ty T :
+    (forall n, def_reg (mk n) = Some n) -> (forall env n, tsite env (mk n) = []) ->
+    (forall t n env, RefT T t -> tupd env (mk n) = (n, t) :: env) ->
+    HT Cf s (r <- alloc_emit mk ;; ret (Some (ERes ty (RReg r)))) (BP s T).
+  Proof.
+    intros Hd Hs Hu. eapply HT_bind; [apply HT_alloc, Hd|]. intros r s1 W1 G1 H1.
+    apply HT_ret. intros F. unwrap. fin_all. destruct H1 as (Er & Hh & C1 & V1).
+    exists (ERes ty (RReg r)), [mk r].
+    split; [reflexivity|]. split; [exact C1|]. split; [apply nolet_one; intro; apply Hs|].
+    split; [apply RegLe_reg; lia|].
+    intros t Ht. rewrite (TEnv_app s s1 _ C1). cbn [tfrom fold_left]. rewrite (Hu t r _ Ht).
+    unfold operand_tree. cbn [r_val env_lookup]. rewrite N.eqb_refl. reflexivity.
+  Qed.
+
+  Section Expr.
+    Variable E : expr -> M (option eres).
+    Hypothesis HE : forall e s, HT Cf s (E e) (BP s (bracket_of e)).
+
+    Lemma B_call_args callee params : forall args i acc s,
+      HT Cf s (call_args E callee params i args acc)
+         (fun r s' => exists ps c, r = Some ps /\ Ctx s' = Ctx s ++ c /\ nolet c).
+    Proof.
+      induction args as [|a args IH]; intros i acc s; cbn [call_args].
+      - apply HT_ret. intros _. exists acc, []. rewrite app_nil_r.
+        split; [reflexivity|]. split; [reflexivity | apply nolet_nil].
+      - eapply HT_bind; [apply HE|]. intros r s1 W1 G1 H1.
+        destruct r as [er|].
+        2: { apply HT_ret. intros F. unwrap. fin_all.
+             destruct H1 as (er & c & Hr & _). discriminate. }
+        assert (Hgo : forall acc', HT Cf s1 (call_args E callee params (S i) args acc')
+                  (fun r s' => Grow s1 s' -> exists ps c, r = Some ps /\ Ctx s' = Ctx s ++ c /\ nolet c)).
+        { intro acc'. eapply HT_conseq; [apply IH|]. intros ps s' W' G' F' HQ. unwrap. fin_all.
+          destruct H1 as (er0 & c1 & _ & C1 & N1 & _).
+          destruct HQ as (ps' & c2 & Hps & C2 & N2).
+          exists ps', (c1 ++ c2). split; [exact Hps|].
+          split; [rewrite C2, C1, app_assoc; reflexivity|]. apply nolet_app. split; assumption. }
+        assert (Herr : forall e0 Q,
+                   HT Cf s1 (add_error e0 ;;; call_args E callee params (S i) args acc) Q).
+        { intros. apply HT_error_then. intro s2. eapply HT_weaken, IH. }
+        destruct (nth_error params i) as [pt|]; [|apply Herr].
+        destruct (sem_ty_eqb pt (r_ty er)); [|apply Herr].
+        apply Hgo.
+    Qed.
+
+    Lemma B_function_call f args s :
+      HT Cf s (function_call G E f args)
+         (fun r s' => exists ty c, r = Some ty /\ Ctx s' = Ctx s ++ c /\ nolet c).
+    Proof.
+      unfold function_call. destruct (alookup (iname f) (g_funcs G)) as [fd|] eqn:Efd;
+        [|apply HT_error_ret].
+      eapply HT_bind; [apply B_call_args|]. intros ps s1 W1 G1 H1.
+      destruct ps as [params|].
+      2: { apply HT_ret. intros F. unwrap. fin_all.
+           destruct H1 as (ps & c & Hr & _). discriminate. }
+      eapply HT_bind; [apply HT_alloc; intro; reflexivity|]. intros r s2 W2 G2 H2.
+      apply HT_ret. intros F. unwrap. fin_all.
+      destruct H1 as (ps & c & _ & C1 & N1). destruct H2 as (Er & Hh & C2 & V2).
+      exists (f_ty fd), (c ++ [ICall fd params r]). split; [reflexivity|].
+      split; [rewrite C2, C1, app_assoc; reflexivity|].
+      apply nolet_app. split; [exact N1 | apply nolet_one; reflexivity].
+    Qed.
+
+    Lemma B_expr_value v s : HT Cf s (expr_value G E v) (BP s (Leaf v)).
+    Proof.
+      destruct v as [x|p|f args|x a|e|t tag]; cbn [expr_value].
+      - apply HT_lookup_bind. destruct (lookup_frames _ _) as [val|] eqn:El.
+        + apply B_leaf; try reflexivity. intros t n env Ht. inversion Ht.
+        + destruct (alookup _ _) as [c|] eqn:Ec.
+          * apply B_leaf; try reflexivity. intros t n env Ht. inversion Ht.
+          * eapply HT_bind; [apply HT_bump|]. intros. apply HT_error_ret.
+      - apply HT_ret. intros _. exists (ERes (SPrim (pv_ty p)) (RPrim p)), [].
+        rewrite app_nil_r. split; [reflexivity|]. split; [reflexivity|]. split; [apply nolet_nil|].
+        split; [apply RegLe_prim|]. intros t Ht. inversion Ht.
+      - eapply HT_bind; [apply B_function_call|]. intros t s1 W1 G1 H1.
+        destruct t as [ty|].
+        2: { apply HT_ret. intros F. unwrap. fin_all.
+             destruct H1 as (ty & c & Hr & _). discriminate. }
+        eapply HT_bind; [apply HT_bump|]. intros r s2 W2 G2 H2.
+        apply HT_ret. intros F. unwrap. fin_all.
+        destruct H1 as (ty0 & c & _ & C1 & N1). destruct H2 as (Er & Hh & C2 & V2).
+        exists (ERes ty (RReg r)), c. split; [reflexivity|].
+        split; [rewrite C2; exact C1|]. split; [exact N1|].
+        split; [apply RegLe_reg; lia|]. intros t Ht. inversion Ht.
+      - apply HT_lookup_bind. destruct (lookup_frames _ _) as [val|] eqn:El; [|apply HT_error_ret].
+        destruct (v_ty val) as [pt|sn attrs|at_ an] eqn:Ety; try apply HT_error_ret.
+        eapply HT_bind; [apply HT_check_type_exists|]. intros ok s1 W1 G1 H1.
+        destruct ok; cbn [negb].
+        2: { apply HT_ret. intros F. unwrap. fin_all. destruct H1 as [H1 _]. discriminate. }
+        destruct (alookup _ _) as [declared|] eqn:Eal.
+        2: { apply HT_ret. intros F. unwrap. fin_all. destruct H1 as (_ & _ & [H1|H1]);
+             [discriminate|]. unfold amem in H1. rewrite Eal in H1. discriminate. }
+        destruct (negb _); [apply HT_error_ret|].
+        destruct (attr_lookup _ _) as [[idx aty]|] eqn:Eat; [|apply HT_error_ret].
+        eapply HT_bind; [apply HT_alloc; intro; reflexivity|]. intros r s2 W2 G2 H2.
+        eapply HT_bind; [apply HT_bump|]. intros r' s3 W3 G3 H3.
+        apply HT_ret. intros F. unwrap. fin_all.
+        destruct H1 as (_ & -> & _). destruct H2 as (Er & Hh2 & C2 & V2).
+        destruct H3 as (Er' & Hh3 & C3 & V3).
+        exists (ERes aty (RReg r')), [IExprStruct val idx r]. split; [reflexivity|].
+        split; [rewrite C3; exact C2|]. split; [apply nolet_one; reflexivity|].
+        split; [apply RegLe_reg; lia|]. intros t Ht. inversion Ht.
+      - eapply HT_conseq; [apply HE|]. intros r s' _ _ _ (er & c & Hr & C & Nl & R & T).
+        exists er, c. split; [exact Hr|]. split; [exact C|]. split; [exact Nl|]. split; [exact R|].
+        intros t0 Ht. apply T. destruct e as [v rest]. inversion Ht; subst. assumption.
+      - apply B_leaf; try reflexivity. intros t0 n env Ht. inversion Ht; subst. reflexivity.
+    Qed.
+
+    Lemma B_expr_chain : forall rest left s,
+      HT Cf s (expr_chain G E left rest)
+         (fun r s' => RegLe (hr s) left ->
+            exists er c, r = Some er /\ Ctx s' = Ctx s ++ c /\ nolet c /\ RegLe (hr s') er /\
+              forall a t, operand_tree left (TEnv s) = Some a -> chainT a rest t ->
+                          operand_tree er (TEnv s') = Some t).
+    Proof.
+      induction rest as [|[op v] rest IH]; intros left s; cbn [expr_chain].
+      - apply HT_ret. intros _ Hl. exists left, []. rewrite app_nil_r.
+        split; [reflexivity|]. split; [reflexivity|]. split; [apply nolet_nil|]. split; [exact Hl|].
+        intros a t Ha Ht. cbn [chainT] in Ht. subst t. exact Ha.
+      - eapply HT_bind; [apply B_expr_value|]. intros rv s1 W1 G1 H1.
+        destruct rv as [rgt|].
+        2: { apply HT_ret. intros F. unwrap. fin_all. intros _.
+             destruct H1 as (er & c & Hr & _). discriminate. }
+        destruct (negb _); [apply HT_error_ret|].
+        eapply HT_bind; [apply HT_alloc; intro; reflexivity|]. intros r s2 W2 G2 H2.
+        eapply HT_conseq; [apply IH|]. intros er s' W' G' F' HQ. unwrap. fin_all.
+        intros Hl.
+        destruct H1 as (er0 & c1 & Hr & C1 & N1 & R1 & T1).
+        inversion Hr; subst er0. destruct H2 as (Er & Hh & C2 & V2).
+        pose proof (Grow_defs _ _ _ G1 C1) as Hd1.
+        destruct HQ as (er' & c3 & Her & C3 & N3 & R3 & T3); [apply RegLe_reg; lia|].
+        exists er', (c1 ++ [IExprOp op left rgt r] ++ c3). split; [exact Her|].
+        split; [rewrite C3, C2, C1, <- !app_assoc; reflexivity|].
+        split; [apply nolet_app; split; [exact N1|]; apply nolet_app; split;
+                [apply nolet_one; reflexivity | exact N3]|].
+        split; [exact R3|].
+        intros a t Ha Ht. cbn [chainT] in Ht. destruct Ht as (b & Hb & Ht).
+        apply (T3 (TNode a op b) t); [|exact Ht].
+        assert (Ha1 : operand_tree left (TEnv s1) = Some a).
+        { rewrite (TEnv_app s s1 c1 C1).
+          rewrite (operand_tree_stable (hr s) (hr s1) c1 (TEnv s) left Hd1 Hl). exact Ha. }
+        rewrite (TEnv_app s1 s2 _ C2). cbn [tfrom fold_left tupd].
+        rewrite Ha1, (T1 b Hb). unfold operand_tree. cbn [r_val env_lookup].
+        rewrite N.eqb_refl. reflexivity.
+    Qed.
+
+    Lemma B_expression_body e s : HT Cf s (expression_body G E e) (BP s (bracket_of e)).
+    Proof.
+      unfold expression_body.
+      pose proof (fun t => RefT_fold e t) as Hfold.
+      destruct (fold_priority e) as [v rest].
+      eapply HT_bind; [apply B_expr_value|]. intros rv s1 W1 G1 H1.
+      destruct rv as [first|].
+      2: { apply HT_ret. intros F. unwrap. fin_all.
+           destruct H1 as (er & c & Hr & _). discriminate. }
+      eapply HT_conseq; [apply B_expr_chain|]. intros er s' W' G' F' HQ. unwrap. fin_all.
+      destruct H1 as (er0 & c1 & Hr & C1 & N1 & R1 & T1). inversion Hr; subst er0.
+      destruct (HQ R1) as (er' & c2 & Her & C2 & N2 & R2 & T2).
+      exists er', (c1 ++ c2). split; [exact Her|].
+      split; [rewrite C2, C1, app_assoc; reflexivity|].
+      split; [apply nolet_app; split; assumption|]. split; [exact R2|].
+      intros t Ht. destruct (Hfold t Ht) as [Ht' Hlen]. cbn [bracket_of] in Ht'.
+      destruct (RefT_short v rest t Hlen Ht') as (a & Ha & Hc).
+      apply (T2 a t); [apply T1, Ha | exact Hc].
+    Qed.
+  End Expr.
+
+  Lemma B_expression fuel : forall e s, HT Cf s (expression G fuel e) (BP s (bracket_of e)).
+  Proof.
+    induction fuel as [|f IH]; intros e s; cbn [expression]; [apply HT_oof|].
+    apply B_expression_body. exact IH.
+  Qed.
+End Walk.
+
+(** ** Statements: the lets of a pushed suffix *)
+Definition LetOk (e : expr) (g : option ttree) : Prop :=
+  forall t, ref_of_expr e = Some t -> g = Some t.
+
+Definition ST (es : list expr) (s s' : bst) : Prop :=
+  exists c, Ctx s' = Ctx s ++ c /\ Forall2 LetOk es (let_trees c (TEnv s)).
+
+Lemma ST_trans es1 es2 s s1 s2 : ST es1 s s1 -> ST es2 s1 s2 -> ST (es1 ++ es2) s s2.
+Proof.
+  intros (c1 & C1 & H1) (c2 & C2 & H2). exists (c1 ++ c2).
+  split; [rewrite C2, C1, app_assoc; reflexivity|].
+  rewrite let_trees_app. apply Forall2_app; [exact H1|]. rewrite <- (TEnv_app s s1 c1 C1). exact H2.
+Qed.
+
+Lemma ST_nolet s s' c : Ctx s' = Ctx s ++ c -> nolet c -> ST [] s s'.
+Proof. intros C Hn. exists c. split; [exact C|]. rewrite nolet_trees by exact Hn. constructor. Qed.
+
+Lemma ST_neutral s s' : Ctx s' = Ctx s -> ST [] s s'.
+Proof. intro C. apply (ST_nolet s s' []); [rewrite app_nil_r; exact C | apply nolet_nil]. Qed.
+
+Lemma ST_nil_inv s s' : ST [] s s' -> exists c, Ctx s' = Ctx s ++ c /\ let_trees c (TEnv s) = [].
+Proof. intros (c & C & H). exists c. split; [exact C|]. inversion H. reflexivity. Qed.
+
+(** ** The source side: the nested fixpoints of [lets_of_stmt], named *)
+Definition lets_body (ss : list stmt) : list expr := flat_map lets_of_stmt ss.
+Definition body_of (b : ifbody) : list stmt := match b with IBIf ss | IBLoop ss => ss end.
+
+Lemma lets_go_eq ss :
+  (fix go (l : list stmt) : list expr :=
+     match l with [] => [] | x :: l' => lets_of_stmt x ++ go l' end) ss = lets_body ss.
+Proof. induction ss as [|x ss IH]; [reflexivity|]. cbn [lets_body flat_map]. rewrite IH. reflexivity. Qed.
+
+Lemma lets_loop body : lets_of_stmt (SLoop body) = lets_body body.
+Proof. apply lets_go_eq. Qed.
+
+Lemma lets_ifbody b : lets_of_ifbody b = lets_body (body_of b).
+Proof. destruct b as [ss|ss]; apply lets_go_eq. Qed.
+
+Lemma lets_if c body els elif :
+  lets_of_if (IfS c body els elif) =
+  lets_body (body_of body) ++
+  match els with Some b => lets_body (body_of b) | None => [] end ++
+  match elif with Some i' => lets_of_if i' | None => [] end.
+Proof.
+  change (lets_of_if (IfS c body els elif)) with
+    (lets_of_ifbody body ++ match els with Some b => lets_of_ifbody b | None => [] end ++
+     match elif with Some i' => lets_of_if i' | None => [] end).
+  rewrite lets_ifbody. destruct els as [b|]; [rewrite lets_ifbody|]; reflexivity.
+Qed.
+
+Section Stmt.
+  Variable Cf : list instr.
+  Variable G : globals.
+
+  Notation STT es s m := (HT Cf s m (fun _ s' => ST es s s')).
+  Notation NL s m := (HT Cf s m (fun _ s' => ST [] s s')).
+
+  Lemma STT_bind es1 es2 {A B} s (m : M A) (f : A -> M B) :
+    STT es1 s m -> (forall a s1, STT es2 s1 (f a)) -> STT (es1 ++ es2) s (bind m f).
+  Proof.
+    intros Hm Hf. eapply HT_bind; [exact Hm|]. intros a s1 W1 G1 H1.
+    eapply HT_conseq; [apply Hf|]. intros b s' W' G' F' HQ _. fin_all.
+    eapply ST_trans; eassumption.
+  Qed.
+
+  Lemma STT_conv es' es {A} s (m : M A) : STT es' s m -> es' = es -> STT es s m.
+  Proof. intros H <-. exact H. Qed.
+
+  Lemma NL_bind {A B} s (m : M A) (f : A -> M B) :
+    NL s m -> (forall a s1, NL s1 (f a)) -> NL s (bind m f).
+  Proof. intros Hm Hf. apply (STT_bind [] [] s m f Hm Hf). Qed.
+
+  Lemma NL_ret {A} s (a : A) : NL s (ret a).
+  Proof. apply HT_ret. intros _. apply ST_neutral. reflexivity. Qed.
+
+  Lemma NL_same {A} s (m : M A) : HT Cf s m (fun _ s' => Same s s') -> NL s m.
+  Proof.
+    intro H. eapply HT_conseq; [exact H|]. intros a s' _ _ _ (_ & C & _). apply ST_neutral, C.
+  Qed.
+
+  Lemma NL_emit s i : def_reg i = None -> (forall env, tsite env i = []) -> NL s (emit i).
+  Proof.
+    intros Hd Hs. eapply HT_conseq; [apply HT_emit, Hd|]. intros a s' _ _ _ (_ & C & _).
+    apply (ST_nolet s s' [i] C). apply nolet_one, Hs.
+  Qed.
+  Lemma NL_emit_kid s n i : def_reg i = None -> (forall env, tsite env i = []) -> NL s (emit_kid n i).
+  Proof.
+    intros Hd Hs. eapply HT_conseq; [apply HT_emit_kid, Hd|]. intros a s' _ _ _ (_ & C & _).
+    apply (ST_nolet s s' [i] C). apply nolet_one, Hs.
+  Qed.
+  Lemma NL_alloc s mk :
+    (forall n, def_reg (mk n) = Some n) -> (forall env n, tsite env (mk n) = []) -> NL s (alloc_emit mk).
+  Proof.
+    intros Hd Hs. eapply HT_conseq; [apply HT_alloc, Hd|]. intros r s' _ _ _ (_ & _ & C & _).
+    apply (ST_nolet s s' [mk r] C). apply nolet_one. intro. apply Hs.
+  Qed.
+  Lemma NL_push s : NL s push_child.
+  Proof. eapply HT_conseq; [apply HT_push_child|]. intros a s' _ _ _ (_ & C & _). apply ST_neutral, C. Qed.
+  Lemma NL_pop s : NL s pop_child.
+  Proof. eapply HT_conseq; [apply HT_pop_child|]. intros a s' _ _ _ (_ & C & _). apply ST_neutral, C. Qed.
+  Lemma NL_gen_label s base : NL s (gen_label base).
+  Proof. apply NL_same, HT_gen_label. Qed.
+  Lemma NL_set_return s : NL s set_return.
+  Proof. apply NL_same, HT_set_return. Qed.
+  Lemma NL_set_inner_name s n : NL s (set_inner_name n).
+  Proof. apply NL_same, HT_set_inner_name. Qed.
+  Lemma NL_insert_value s x v : NL s (insert_value x v).
+  Proof. eapply HT_conseq; [apply HT_insert_value|]. intros a s' _ _ _ (_ & C & _). apply ST_neutral, C. Qed.
+  Lemma NL_when s c m : NL s m -> NL s (when c m).
+  Proof. intro H. destruct c; [exact H | apply NL_ret]. Qed.
+  Lemma NL_gets_bind {A B} s (g : list block -> A) (f : A -> M B) :
+    NL s (f (g (frames s))) -> NL s (bind (gets g) f).
+  Proof. apply HT_gets_bind. Qed.
+  Lemma STT_gets_bind es {A B} s (g : list block -> A) (f : A -> M B) :
+    STT es s (f (g (frames s))) -> STT es s (bind (gets g) f).
+  Proof. apply HT_gets_bind. Qed.
+  Lemma NL_gets {A} s (g : list block -> A) : NL s (gets g).
+  Proof. apply HT_gets. intros _. apply ST_neutral. reflexivity. Qed.
+  Lemma NL_error s e : NL s (add_error e).
+  Proof. apply HT_error. Qed.
+  Lemma NL_bump s : NL s bump.
+  Proof. eapply HT_conseq; [apply HT_bump|]. intros a s' _ _ _ (_ & _ & C & _). apply ST_neutral, C. Qed.
+  Lemma NL_check_type_exists s t v l : NL s (check_type_exists G t v l).
+  Proof.
+    eapply HT_conseq; [apply HT_check_type_exists|]. intros a s' _ _ _ (_ & -> & _).
+    apply ST_neutral. reflexivity.
+  Qed.
+  Lemma NL_next_inner_name s fuel n : NL s (next_inner_name fuel n).
+  Proof.
+    eapply HT_conseq; [apply HT_next_inner_name|]. intros a s' _ _ _ (-> & _).
+    apply ST_neutral. reflexivity.
+  Qed.
+
+  Ltac nl_go :=
+    repeat first
+      [ apply NL_ret
+      | apply HT_panic | apply HT_oof | apply NL_error
+      | match goal with H : _ |- HT _ _ _ _ => solve [apply H] end
+      | apply NL_emit; [reflexivity | reflexivity]
+      | apply NL_emit_kid; [reflexivity | reflexivity]
+      | apply NL_alloc; [intro; reflexivity | intros; reflexivity]
+      | apply NL_gen_label | apply NL_push | apply NL_pop | apply NL_set_return | apply NL_bump
+      | apply NL_check_type_exists
+      | apply NL_when
+      | apply NL_gets_bind | apply NL_gets
+      | apply NL_bind; [| intros ? ?]
+      | match goal with |- HT _ _ (match ?x with _ => _ end) _ => destruct x end
+      | progress cbv zeta ].
+
+  Section Stmts.
+    Variable fuel : nat.
+    Variable RT : sem_ty.
+
+    Lemma NL_expression e s : NL s (expression G fuel e).
+    Proof.
+      eapply HT_conseq; [apply B_expression|]. intros r s' _ _ _ (er & c & _ & C & Hn & _).
+      apply (ST_nolet s s' c C Hn).
+    Qed.
+
+    Lemma NL_function_call f args s : NL s (function_call G (expression G fuel) f args).
+    Proof.
+      eapply HT_conseq; [apply B_function_call, B_expression|].
+      intros r s' _ _ _ (ty & c & _ & C & Hn). apply (ST_nolet s s' c C Hn).
+    Qed.
+
+    Lemma T_let_binding x m t e s : STT [e] s (let_binding G fuel x m t e).
+    Proof.
+      unfold let_binding. cbv zeta.
+      eapply HT_bind; [apply B_expression|]. intros r s1 W1 G1 H1.
+      destruct r as [er|].
+      2: { apply HT_ret. intros F. unwrap. fin_all. destruct H1 as (er & c & Hr & _). discriminate. }
+      destruct (match t with Some _ => _ | None => _ end); [apply HT_error|].
+      apply HT_lookup_bind. apply HT_gets_bind.
+      eapply HT_bind; [apply HT_next_inner_name|]. intros inner s2 W2 G2 H2.
+      eapply HT_bind; [apply HT_insert_value|]. intros u3 s3 W3 G3 H3.
+      eapply HT_bind; [apply HT_set_inner_name|]. intros u4 s4 W4 G4 H4.
+      eapply HT_conseq; [apply HT_emit; reflexivity|]. intros u5 s5 W5 G5 F5 H5. unwrap. fin_all.
+      destruct H2 as [-> _]. destruct H3 as (_ & C3 & V3). destruct H4 as (_ & C4 & V4).
+      destruct H5 as (_ & C5 & V5).
+      destruct H1 as (er0 & c1 & Hr & C1 & N1 & R1 & T1). inversion Hr; subst er0.
+      set (val := Value inner (r_ty er) m) in *.
+      exists (c1 ++ [ILet val er]).
+      split; [rewrite C5, C4, C3, C1, app_assoc; reflexivity|].
+      rewrite let_trees_app, (nolet_trees c1 _ N1), <- (TEnv_app s s1 c1 C1), let_trees_one.
+      cbn [app tsite]. constructor; [|constructor].
+      intros t0 Ht. apply T1, ref_of_expr_RefT, Ht.
+    Qed.
+
+    Lemma T_binding x e s : NL s (binding G fuel x e).
+    Proof. pose proof NL_expression. unfold binding. nl_go. Qed.
+
+    Lemma T_call_stmt f args s : NL s (call_stmt G fuel f args).
+    Proof. pose proof NL_function_call. unfold call_stmt. nl_go. Qed.
+
+    Lemma T_condition_expression c : forall s, NL s (condition_expression G fuel c).
+    Proof.
+      pose proof NL_expression.
+      induction c as [l cmp r | l cmp r op c' IH] using lcond_ind'; intro s;
+        cbn [condition_expression]; nl_go.
+    Qed.
+
+    Lemma T_if_condition_calculation c lb le lend ie s :
+      NL s (if_condition_calculation G fuel c lb le lend ie).
+    Proof.
+      pose proof NL_expression. pose proof T_condition_expression.
+      unfold if_condition_calculation. nl_go.
+    Qed.
+
+    Lemma T_code_after_errors kd fl s : NL s (code_after_errors kd fl).
+    Proof. unfold code_after_errors. nl_go. Qed.
+
+    (** ** The control level *)
+    Ltac st_go :=
+      repeat first
+        [ apply NL_ret
+        | apply HT_panic | apply HT_oof | apply NL_error
+        | match goal with H : _ |- HT _ _ _ _ => solve [apply H] end
+        | apply NL_emit; [reflexivity | reflexivity]
+        | apply NL_emit_kid; [reflexivity | reflexivity]
+        | apply NL_gen_label | apply NL_push | apply NL_pop | apply NL_set_return
+        | apply NL_when
+        | apply STT_gets_bind
+        | eapply STT_bind; [| intros ? ?]
+        | progress cbv zeta ].
+
+    Ltac es_norm := cbn [app]; repeat rewrite app_nil_r; repeat rewrite <- app_assoc; reflexivity.
+
+    Section Control.
+      Variable IFC : ifstmt -> option string -> option (string * string) -> M unit.
+      Variable LOOP : list stmt -> M unit.
+      Hypothesis HIFC : forall i le ll s, STT (lets_of_if i) s (IFC i le ll).
+      Hypothesis HLOOP : forall body s, STT (lets_body body) s (LOOP body).
+
+      Lemma T_nested_ret kd lend lloop e fl s :
+        NL s (nested_stmt G fuel RT IFC LOOP kd lend lloop fl (SRet e)).
+      Proof.
+        pose proof NL_expression. cbn [nested_stmt]. unfold check_return_type. nl_go.
+      Qed.
+
+      Lemma T_nested_stmt kd lend lloop fl st s :
+        STT (lets_of_stmt st) s (nested_stmt G fuel RT IFC LOOP kd lend lloop fl st).
+      Proof.
+        pose proof T_let_binding. pose proof T_binding. pose proof T_call_stmt.
+        destruct st as [x m t e|x e|f args|i|body|e|e| |].
+        - eapply STT_conv; [cbn [nested_stmt]; st_go | es_norm].
+        - eapply STT_conv; [cbn [nested_stmt]; st_go | es_norm].
+        - eapply STT_conv; [cbn [nested_stmt]; st_go | es_norm].
+        - change (lets_of_stmt (SIf i)) with (lets_of_if i).
+          destruct kd; (eapply STT_conv; [cbn [nested_stmt]; st_go | es_norm]).
+        - rewrite lets_loop. eapply STT_conv; [cbn [nested_stmt]; st_go | es_norm].
+        - apply T_nested_ret.
+        - apply HT_panic.
+        - destruct kd, lloop as [[lb le]|]; cbn [nested_stmt]; try apply HT_panic;
+            (eapply STT_conv; [st_go | reflexivity]).
+        - destruct kd, lloop as [[lb le]|]; cbn [nested_stmt]; try apply HT_panic;
+            (eapply STT_conv; [st_go | reflexivity]).
+      Qed.
+
+      Lemma T_run_body kd lend lloop : forall ss fl s,
+        STT (lets_body ss) s (run_body G fuel RT IFC LOOP kd lend lloop fl ss).
+      Proof.
+        pose proof T_nested_stmt. pose proof T_code_after_errors.
+        induction ss as [|st ss IH]; intros fl s; cbn [run_body].
+        - apply NL_ret.
+        - cbn [lets_body flat_map]. fold (lets_body ss).
+          eapply STT_conv; [st_go | es_norm].
+      Qed.
+
+      Lemma T_if_body b lend lloop s :
+        STT (lets_body (body_of b)) s (if_body G fuel RT IFC LOOP b lend lloop).
+      Proof.
+        pose proof T_run_body.
+        destruct b as [ss|ss]; cbn [if_body body_of]; [|destruct lloop as [ll|]; [|apply HT_panic]];
+          (eapply STT_conv; [st_go | es_norm]).
+      Qed.
+
+      Lemma T_if_condition_step i le ll s :
+        STT (lets_of_if i) s (if_condition_step G fuel RT IFC LOOP i le ll).
+      Proof.
+        pose proof T_if_body. pose proof T_if_condition_calculation.
+        destruct i as [c body els elif]. rewrite lets_if. cbn [if_condition_step].
+        destruct els as [eb|]; [|destruct elif as [ei|]].
+        - destruct elif as [ei|].
+          + (* an else and an else-if: rejected *)
+            cbn [is_some andb when]. apply HT_error_then. intro s1. eapply HT_weaken.
+            destruct le as [le|]; cbn [is_some orb andb negb]; cbv iota; st_go.
+          + destruct le as [le|]; cbn [is_some orb andb negb]; cbv iota;
+              (eapply STT_conv; [st_go | es_norm]).
+        - destruct le as [le|]; cbn [is_some orb andb negb]; cbv iota;
+            (eapply STT_conv; [st_go | es_norm]).
+        - destruct le as [le|]; cbn [is_some orb andb negb]; cbv iota;
+            (eapply STT_conv; [st_go | es_norm]).
+      Qed.
+
+      Lemma T_loop_tail (c : bool) lb le s :
+        NL s (if c then ctx <- gets head_ctx ;;
+                        when (existsb (is_jump_to le) ctx) (emit (ISetLabel le))
+              else emit (IJumpTo lb) ;;; emit (ISetLabel le)).
+      Proof. destruct c; nl_go. Qed.
+
+      Lemma T_loop_step body s : STT (lets_body body) s (loop_step G fuel RT IFC LOOP body).
+      Proof.
+        pose proof T_run_body. pose proof T_loop_tail. unfold loop_step.
+        eapply STT_conv; [st_go | es_norm].
+      Qed.
+    End Control.
+
+    Lemma T_control n :
+      (forall i le ll s, STT (lets_of_if i) s (if_condition G fuel RT n i le ll)) /\
+      (forall body s, STT (lets_body body) s (loop_statement G fuel RT n body)).
+    Proof.
+      induction n as [|n [IH1 IH2]]; split; intros; cbn [if_condition loop_statement];
+        try apply HT_oof.
+      - apply T_if_condition_step; assumption.
+      - apply T_loop_step; assumption.
+    Qed.
+
+    Lemma T_fn_ret returned e s : NL s (fn_stmt G fuel RT returned (SRet e)).
+    Proof. pose proof NL_expression. cbn [fn_stmt]. nl_go. Qed.
+
+    Lemma T_fn_stmt returned st s :
+      STT (lets_of_stmt st) s (fn_stmt G fuel RT returned st).
+    Proof.
+      pose proof T_let_binding. pose proof T_binding. pose proof T_call_stmt.
+      destruct (T_control fuel) as [HI HL].
+      destruct st as [x m t e|x e|f args|i|body|e|e| |].
+      - eapply STT_conv; [cbn [fn_stmt]; st_go | es_norm].
+      - eapply STT_conv; [cbn [fn_stmt]; st_go | es_norm].
+      - eapply STT_conv; [cbn [fn_stmt]; st_go | es_norm].
+      - change (lets_of_stmt (SIf i)) with (lets_of_if i).
+        eapply STT_conv; [cbn [fn_stmt]; st_go | es_norm].
+      - rewrite lets_loop. eapply STT_conv; [cbn [fn_stmt]; st_go | es_norm].
+      - apply T_fn_ret.
+      - exact (T_fn_ret returned e s).
+      - apply HT_panic.
+      - apply HT_panic.
+    Qed.
+
+    Lemma T_fn_stmts : forall ss returned s,
+      STT (lets_body ss) s (fn_stmts G fuel RT returned ss).
+    Proof.
+      pose proof T_fn_stmt.
+      induction ss as [|st ss IH]; intros returned s; cbn [fn_stmts].
+      - apply NL_ret.
+      - cbn [lets_body flat_map]. fold (lets_body ss).
+        eapply STT_conv; [st_go | es_norm].
+    Qed.
+  End Stmts.
+
+  Lemma T_init_func_params : forall ps s, NL s (init_func_params ps).
+  Proof.
+    induction ps as [|[x t] ps IH]; intro s; cbn [init_func_params]; [apply NL_ret|].
+    pose proof NL_insert_value. pose proof NL_set_inner_name. nl_go.
+  Qed.
+
+  (** ** One function body *)
+  Lemma T_function_body_m f s : STT (lets_of_fn f) s (function_body_m G f).
+  Proof.
+    unfold function_body_m. cbv zeta.
+    change (lets_of_fn f) with (lets_body (fn_body f)).
+    eapply STT_conv.
+    - eapply STT_bind; [apply T_init_func_params | intros ? ?].
+      eapply STT_bind; [apply T_fn_stmts | intros ? ?].
+      apply NL_when, NL_error.
+    - cbn [app]. rewrite app_nil_r. reflexivity.
+  Qed.
+End Stmt.
+
+(** ** One function *)
+Lemma ttree_eqb_refl t : ttree_eqb t t = true.
+Proof.
+  induction t as [n|l IHl o r IHr]; cbn [ttree_eqb]; [apply N.eqb_refl|].
+  rewrite IHl, IHr. unfold binop_eqb. rewrite String.eqb_refl. reflexivity.
+Qed.
+
+Lemma match_lets_ok : forall src got, Forall2 LetOk src got -> match_lets src got = true.
+Proof.
+  induction 1 as [|e g src got He _ IH]; [reflexivity|]. cbn [match_lets]. rewrite IH.
+  destruct (ref_of_expr e) as [t|] eqn:Er; [|reflexivity].
+  rewrite (He t Er), ttree_eqb_refl. reflexivity.
+Qed.
+
+Lemma WF_init0 e : WF (BSt [empty_block] e).
+Proof. split; [discriminate | apply Inv_reg_init]. Qed.
+
+Lemma function_body_C07 G f a s root :
+  function_body G [] f = Ok a s -> errs s = [] -> frames s = [root] -> chk_C07_fn f root = true.
+Proof.
+  intros H He Hf.
+  assert (HC : Ctx s = b_ctx root) by (unfold Ctx; rewrite Hf; reflexivity).
+  unfold chk_C07_fn. rewrite <- HC. unfold function_body in H.
+  destruct (T_function_body_m (Ctx s) G f (BSt [empty_block] []) (WF_init0 []) a s H)
+    as (_ & _ & HQ).
+  destruct HQ as (c & C & HQ).
+  { split; [exact He|]. exists []. rewrite app_nil_r. reflexivity. }
+  change (Ctx (BSt [empty_block] [])) with (@nil instr) in C. cbn [app] in C.
+  change (TEnv (BSt [empty_block] [])) with (@nil (N * ttree)) in HQ. rewrite <- C in HQ.
+  apply match_lets_ok, HQ.
+Qed.
+
+(** ** The driver *)
+Lemma chk_fns_snoc : forall fs roots f r,
+  chk_C07_fns fs roots = true -> chk_C07_fn f r = true ->
+  chk_C07_fns (fs ++ [f]) (roots ++ [r]) = true.
+Proof.
+  induction fs as [|f0 fs IH]; intros [|r0 roots] f r H Hc; cbn in *; try discriminate.
+  - rewrite Hc. reflexivity.
+  - apply Bool.andb_true_iff in H as [H1 H2]. rewrite H1. cbn. apply IH; assumption.
+Qed.
+
+Lemma bodies_errs_grow G : forall fs errs0 roots errs1 roots1,
+  bodies G errs0 roots fs = inr (errs1, roots1) -> exists e, errs1 = errs0 ++ e.
+Proof.
+  induction fs as [|f fs IH]; intros errs0 roots errs1 roots1 H; cbn [bodies] in H.
+  - inversion H; subst. exists []. rewrite app_nil_r. reflexivity.
+  - destruct (function_body G errs0 f) as [a s| |] eqn:E; try discriminate.
+    destruct (frames s) as [|root [|]]; try discriminate.
+    destruct (IH _ _ _ _ H) as [e2 E2]. destruct (function_body_errs _ _ _ _ _ E) as [e1 E1].
+    exists (e1 ++ e2). rewrite E2, E1, app_assoc. reflexivity.
+Qed.
+
+Lemma bodies_C07 G : forall fs fs0 errs0 roots errs1 roots1,
+  bodies G errs0 roots fs = inr (errs1, roots1) -> errs1 = [] ->
+  chk_C07_fns fs0 roots = true -> chk_C07_fns (fs0 ++ fs) roots1 = true.
+Proof.
+  induction fs as [|f fs IH]; intros fs0 errs0 roots errs1 roots1 H He Ho; cbn [bodies] in H.
+  - inversion H; subst. rewrite app_nil_r. exact Ho.
+  - destruct (function_body G errs0 f) as [a s| |] eqn:E; try discriminate.
+    destruct (frames s) as [|root [|]] eqn:Ef; try discriminate.
+    destruct (bodies_errs_grow _ _ _ _ _ _ H) as [e2 E2].
+    destruct (function_body_errs _ _ _ _ _ E) as [e1 E1].
+    subst errs1. symmetry in E2. apply app_eq_nil in E2 as [Hs _].
+    rewrite Hs in E1. symmetry in E1. apply app_eq_nil in E1 as [H0 _]. subst errs0.
+    pose proof (function_body_C07 G f a s root E Hs Ef) as Hc.
+    specialize (IH (fs0 ++ [f]) (errs s) (roots ++ [root]) [] roots1 H eq_refl
+                   (chk_fns_snoc _ _ _ _ Ho Hc)).
+    rewrite <- app_assoc in IH. exact IH.
+Qed.
+
+(** C07, last sentence: on accepted programs, the operations emitted for every let initialiser
+    over extension leaves, read back as a tree through their register operands, are exactly the
+    unique well-bracketed tree [bracket] of the source chain (explicit brackets as units). *)
+Theorem run_emitted_tree_is_bracket : forall p out,
+  run p = ROk out -> o_errors out = [] -> chk_C07 p out = true.
+Proof.
+  intros p out H Hacc. unfold run in H.
+  destruct (bodies (gs_globals (declarations p)) (gs_errs (declarations p)) [] (functions_of p))
+    as [r|[errors roots]] eqn:E; [exfalso; eapply bodies_not_ok; subst r; exact E|].
+  inversion H; subst; clear H. cbn [o_errors] in Hacc. subst errors.
+  unfold chk_C07. cbn [o_errors o_fns].
+  apply (bodies_C07 _ _ [] _ _ _ _ E eq_refl eq_refl).
+Qed.
+
+Print Assumptions run_emitted_tree_is_bracket.
+
+(** ** The expression level, stated on its own: on a run that is accepted in the end, the operand
+    that the analysis of [e] yields denotes, in the environment of the monitor after the run,
+    exactly the reference tree of [e]; the environment after extends the one before by the code
+    pushed, which contains no [ILet] and defines only registers above the old counter. *)
+Theorem expression_emits_bracket : forall Cf G fuel e s r s' t,
+  WF s -> expression G fuel e s = Ok r s' -> Fin Cf s' -> ref_of_expr e = Some t ->
+  exists er c, r = Some er /\ Ctx s' = Ctx s ++ c /\ TEnv s' = tfrom (TEnv s) c /\
+    DefsIn (hr s) (hr s') c /\ let_trees c (TEnv s) = [] /\
+    operand_tree er (TEnv s') = Some t.
+Proof.
+  intros Cf G fuel e s r s' t W H F Ht.
+  destruct (B_expression Cf G fuel e s W r s' H) as (_ & Gr & HQ).
+  destruct (HQ F) as (er & c & Hr & C & Hn & _ & T).
+  exists er, c. split; [exact Hr|]. split; [exact C|]. split; [apply TEnv_app, C|].
+  split; [apply (Grow_defs _ _ _ Gr C)|]. split; [apply nolet_trees, Hn|].
+  apply T, ref_of_expr_RefT, Ht.
+Qed.
+
+(** old registers keep their tree when the environment is extended by such code *)
+Theorem extension_keeps_old_registers : forall lo hi c env n,
+  DefsIn lo hi c -> n <= lo -> env_lookup n (tfrom env c) = env_lookup n env.
+Proof.
+  intros lo hi c env n Hd Hn. apply tfrom_lookup.
+  eapply Forall_impl; [|exact Hd]. cbn. intros r Hr. lia.
+Qed.
+
+Print Assumptions expression_emits_bracket.
+Print Assumptions extension_keeps_old_registers.
